@@ -3,6 +3,7 @@ From Coq Require Import Strings.String Strings.Byte.
 From Coq Require Import List NArith.
 From Goit Require Import Bytes Obj Tree Index IndexFacts TreeFacts DiffFacts.
 From Goit Require Import Commit World Repo Inv SnapshotFacts.
+From Goit Require Import Config CommitFacts BranchFacts ExactFacts CommitCmdFacts GateFacts.
 Import ListNotations.
 
 (* T1: the comparison of the staging area with the HEAD tree reports exactly
@@ -60,6 +61,77 @@ Theorem C07_commit_nothing_refused : forall e msg w hid,
   step (ACmd e (CCommit msg)) w = (w, OErr, []).
 Proof. exact commit_nothing_refused. Qed.
 
+(* ---------- Part 3: over histories ---------- *)
+(* "Conversely, any staged difference makes commit succeed": on every reachable
+   repository (no flagged collision, no giant object) whose staging area differs
+   from the snapshot of the commit HEAD resolves to, with an identity and a
+   message in the domain of C12, `commit` returns success and installs exactly
+   the commit of C02_commit_spec *)
+Theorem C07_commit_succeeds_on_any_staged_difference : forall w e msg c hid s,
+  Reachable w -> w_coll w = false -> SmallStore (w_objs w) ->
+  ctx_of w = Some c -> tip_of w = Some hid -> snapshot (w_objs w) hid = Some s ->
+  s <> idx_of w ->
+  user_set (x_l c) (x_g c) = true ->
+  sign_ok (user_name (x_l c) (x_g c)) (user_email (x_l c) (x_g c)) (e_time e) (e_off e) -> msg_ok msg ->
+  exists root subs, write_tree_top (idx_of w) = Some (root, subs) /\
+    step (ACmd e (CCommit msg)) w
+    = (after_commit e c msg w root subs, OOk [], do_commit_trace e c msg w root subs).
+Proof. exact history_commit_succeeds. Qed.
+
+(* the very first commit: any non-empty staging area is a difference *)
+Theorem C07_first_commit_succeeds : forall w e msg c,
+  Reachable w -> ctx_of w = Some c -> w_refs w = [] -> idx_of w <> [] ->
+  valid_branch_name (w_head w) = true ->
+  user_set (x_l c) (x_g c) = true ->
+  sign_ok (user_name (x_l c) (x_g c)) (user_email (x_l c) (x_g c)) (e_time e) (e_off e) -> msg_ok msg ->
+  exists root subs, write_tree_top (idx_of w) = Some (root, subs) /\
+    step (ACmd e (CCommit msg)) w
+    = (after_commit e c msg w root subs, OOk [], do_commit_trace e c msg w root subs).
+Proof. exact history_first_commit_succeeds. Qed.
+
+(* exactly: commit succeeds iff an identity is configured and the staging area
+   differs from the HEAD snapshot *)
+Theorem C07_commit_succeeds_iff : forall e msg w c hid s,
+  GoodW w -> w_inited w = true -> ctx_of w = Some c -> tip_of w = Some hid ->
+  snapshot (w_objs w) hid = Some s ->
+  (forall root subs, write_tree_top (idx_of w) = Some (root, subs) ->
+     parse_commit (commit_data e c msg w root) <> None) ->
+  ((exists out, snd (fst (step (ACmd e (CCommit msg)) w)) = OOk out) <->
+   user_set (x_l c) (x_g c) = true /\ s <> idx_of w).
+Proof. exact commit_succeeds_iff. Qed.
+
+(* `status` on every reachable repository: the world is unchanged, and the
+   "Changes to be committed" lines are exactly the paths whose staged entry
+   differs from the HEAD snapshot, each once, each with the right kind *)
+Theorem C07_status_staged_section_exact : forall w e c hid s,
+  Reachable w -> w_coll w = false -> SmallStore (w_objs w) ->
+  ctx_of w = Some c -> tip_of w = Some hid -> snapshot (w_objs w) hid = Some s ->
+  exists ns, head_nodes c w = Some ns /\ flatten [] ns = s /\
+    let out := staged_lines w ns ++ unstaged_lines w c in
+    step (ACmd e CStatus) w = (w, OOk out, []) /\
+    filter is_staged_line out
+    = map (fun d => dkind_tag (fst d) ++ snd d) (diff_with_tree (idx_of w) ns) /\
+    (forall k p, In (dkind_tag k ++ p) out <-> classify (stg s p) (staged w p) = Some k) /\
+    (forall p, (exists k, In (dkind_tag k ++ p) out) <-> staged w p <> stg s p) /\
+    NoDup (map snd (diff_with_tree (idx_of w) ns)).
+Proof. exact history_status_exact. Qed.
+
+(* "Immediately after a successful commit that list is empty" — after ANY
+   history, and a second commit is then refused with the world unchanged *)
+Theorem C07_status_after_commit_clean : forall h e msg w' out tr,
+  Forall action_ok h ->
+  step (ACmd e (CCommit msg)) (run h w_empty) = (w', OOk out, tr) ->
+  w_coll w' = false -> SmallStore (w_objs w') ->
+  Reachable w' /\
+  exists c' cid ns', ctx_of w' = Some c' /\ tip_of w' = Some cid /\
+    snapshot (w_objs w') cid = Some (idx_of w') /\
+    head_nodes c' w' = Some ns' /\ diff_with_tree (idx_of w') ns' = [] /\
+    (forall e', step (ACmd e' CStatus) w' = (w', OOk (unstaged_lines w' c'), [])) /\
+    (forall l, In l (unstaged_lines w' c') -> is_staged_line l = false) /\
+    (forall e' msg', step (ACmd e' (CCommit msg')) w' = (w', OErr, [])).
+Proof. exact history_status_after_commit_clean. Qed.
+
+
 Print Assumptions C07_diff_exact.
 Print Assumptions C07_nothing_to_commit_iff.
 Print Assumptions C07_empty_after_commit.
@@ -67,3 +139,8 @@ Print Assumptions C07_difference_is_reported.
 Print Assumptions C07_get_node_leaf_iff.
 Print Assumptions C07_gate_is_snapshot_equality.
 Print Assumptions C07_commit_nothing_refused.
+Print Assumptions C07_commit_succeeds_on_any_staged_difference.
+Print Assumptions C07_first_commit_succeeds.
+Print Assumptions C07_commit_succeeds_iff.
+Print Assumptions C07_status_staged_section_exact.
+Print Assumptions C07_status_after_commit_clean.
